@@ -22,7 +22,7 @@
 (*   - which (type, field) resolve to null (D.nulls) and which list fields   *)
 (*     have a null last item (D.nullItems): in Non-Null positions these are  *)
 (*     field errors and exercise null propagation.                           *)
-(* The alias __internal__typename_placeholder is an engine convention: the   *)
+(* The alias __internal_typename (literal.INTERNAL_TYPENAME) is an engine convention: the *)
 (* normalizer adds it to a selection set it emptied and the planner drops it *)
 (* from the response; Exec ignores it.                                       *)
 EXTENDS GQLDoc
@@ -80,12 +80,14 @@ CoerceVars(S, op, vars) ==
         IN IF has(n) THEN Coerce(S, vd.type, VarsGet(vars, n), <<>>, FALSE) ELSE Coerce(S, vd.type, vd.def, <<>>, TRUE)]
 
 \* 6.4.1 CoerceArgumentValues: the set of <<argument name, coerced value>> for the arguments that have a value
+\* cv = [top, nested]: the variable values seen by a variable that IS the argument value and by a variable nested in a list /
+\* object literal.  The specification does not distinguish them (Exec: top = nested); ExecAlt models a known defect.
 CoerceArgs(S, defs, args, cv) ==
   LET given(n) == \E i \in DOMAIN args : args[i].name = n
       lit(n) == args[CHOOSE i \in DOMAIN args : args[i].name = n].value
-      val(n) == IF given(n) /\ ~(lit(n).t = "v" /\ lit(n).n \notin DOMAIN cv)
-                THEN Coerce(S, defs[n].type, lit(n), cv, TRUE)
-                ELSE IF defs[n].def # Absent THEN Coerce(S, defs[n].type, defs[n].def, cv, TRUE) ELSE Absent
+      val(n) == IF given(n) /\ ~(lit(n).t = "v" /\ lit(n).n \notin DOMAIN cv.top)
+                THEN (IF lit(n).t = "v" THEN cv.top[lit(n).n] ELSE Coerce(S, defs[n].type, lit(n), cv.nested, TRUE))
+                ELSE IF defs[n].def # Absent THEN Coerce(S, defs[n].type, defs[n].def, cv.nested, TRUE) ELSE Absent
   IN {<<n, val(n)>> : n \in {a \in DOMAIN defs : val(a) # Absent}}
 
 ----------------------------------------------------------------------------
@@ -94,12 +96,12 @@ DirIf(s, name, cv) ==   \* value of @name(if:) on s: "T", "F", or "-" (directive
   IF \E i \in DOMAIN s.dirs : s.dirs[i].name = name
   THEN LET d == s.dirs[CHOOSE i \in DOMAIN s.dirs : s.dirs[i].name = name]
            v == d.args[CHOOSE j \in DOMAIN d.args : d.args[j].name = "if"].value
-           b == IF v.t = "v" THEN cv[v.n] ELSE v
+           b == IF v.t = "v" THEN cv.top[v.n] ELSE v
        IN IF b.b THEN "T" ELSE "F"
   ELSE "-"
 Skipped(s, cv) == DirIf(s, "skip", cv) = "T" \/ DirIf(s, "include", cv) = "F"
 
-InternalPlaceholder == "__internal__typename_placeholder"
+InternalPlaceholder == "__internal_typename"
 
 RECURSIVE Collect(_, _, _, _, _, _)
 Collect(S, doc, cv, objType, sel, seen) ==
@@ -174,12 +176,26 @@ Complete(S, D, doc, cv, ty, tf, oid, sub, path, top) ==
 \* the operation a request executes
 TheOp(doc) == LET ops == SelectedOps(doc) IN ops[1]
 
-Exec(S, D, doc, vars) ==
+\* variables that have a request value (defaults ignored)
+CoerceVarsGivenOnly(S, op, vars) ==
+  LET defs == {i \in DOMAIN op.vars : VarsGet(vars, op.vars[i].name) # Absent}
+  IN [n \in {op.vars[i].name : i \in defs} |->
+        Coerce(S, op.vars[CHOOSE i \in defs : op.vars[i].name = n].type, VarsGet(vars, n), <<>>, FALSE)]
+
+ExecG(S, D, doc, vars, alt) ==
   LET op == TheOp(doc)
-      cv == CoerceVars(S, op, vars)
+      cvAll == CoerceVars(S, op, vars)
+      cv == [top |-> cvAll, nested |-> IF alt THEN CoerceVarsGivenOnly(S, op, vars) ELSE cvAll]
       root == RootType(S, op.op)
       r == ExecSet(S, D, doc, cv, Collect(S, doc, cv, root, op.sel, {}), root, <<>>, <<>>)
   IN [data |-> IF r.ok THEN r.val ELSE VNull, errs |-> r.errs]
+
+Exec(S, D, doc, vars) == ExecG(S, D, doc, vars, FALSE)
+
+\* NOT the specification: the semantics under the known defect "a variable nested in a list / object literal that has no
+\* request value is replaced by nothing (null item / omitted field) although it has a default value".  Used by Trace_C03
+\* only to name a meaning change.
+ExecAlt(S, D, doc, vars) == ExecG(S, D, doc, vars, TRUE)
 
 ----------------------------------------------------------------------------
 \* Probe universes of the catalog schemas
